@@ -405,7 +405,13 @@ impl FileSpec {
                 if stem.len() <= infix_start {
                     return false;
                 }
-                let maybe_infix = &stem[infix_start..];
+                // the fixed name part must be followed by the separating underscore
+                if infix_start > 0 && stem.as_bytes()[infix_start - 1] != b'_' {
+                    return false;
+                }
+                let Some(maybe_infix) = stem.get(infix_start..) else {
+                    return false;
+                };
                 let end = maybe_infix.find('.').unwrap_or(maybe_infix.len());
                 infix_filter.filter_infix(&maybe_infix[..end])
             })
